@@ -267,6 +267,39 @@ pub fn run(ctx: &Ctx) -> (Stats, Report) {
     }
     st.section("applicability_matrix_pool_values", &mut mark);
 
+    // D2: punctuation and blank runs of every length 1..=700 are copied, for every type
+    {
+        let probes: Vec<Val> = KINDS.iter().map(|k| pools::pool(*k, seed, 0)[3]).collect();
+        let pref = &probes;
+        let s = par_sweep(700, 8, |range, st| {
+            for k in range {
+                let n = k as usize + 1;
+                for v in pref.iter() {
+                    let lead = match v.kind {
+                        Kind::Date | Kind::Ts | Kind::Ora => ("YYYY", "MM"),
+                        Kind::Time => ("HH24", "MI"),
+                        Kind::YM => ("YY", "MM"),
+                        Kind::DT => ("DD", "SS"),
+                    };
+                    for pic in [format!("{}{}{}", lead.0, " ".repeat(n), lead.1), format!("{}{}-{}", " ".repeat(n), lead.0, " ".repeat(n / 2 + 1)), format!("{}:{}/{}", lead.1, " ".repeat(n), lead.0)] {
+                        st.evaluations += 1;
+                        st.nontrivial_enum += 1;
+                        if n >= 256 {
+                            st.class("blank-run-256-or-longer");
+                        }
+                        if let Err(m) = check_format(v, &pic) {
+                            st.fail(k, case_of(v, &pic), m);
+                            return;
+                        }
+                    }
+                }
+            }
+        });
+        st.merge(s);
+        st.exhaustive_sections.push("blank runs of every length 1..=700 in three picture shapes x one value of each type".into());
+    }
+    st.section("blank_runs_copied", &mut mark);
+
     // E: composite pictures (proptest)
     for kind in KINDS {
         let per = (if ctx.thorough { 8_000_000 } else { 240_000 }) / THREADS as u32;
@@ -279,8 +312,9 @@ pub fn run(ctx: &Ctx) -> (Stats, Report) {
                 (
                     strat::raw(kind),
                     prop_oneof![
-                        8 => gen::picture(gen::menu_for(kind), 0, 36, false),
+                        7 => gen::picture(gen::menu_for(kind), 0, 36, false),
                         1 => gen::picture(gen::menu_for(kind), 30, 40, false),
+                        1 => gen::picture(gen::menu_for(kind), 0, 12, true),
                         1 => gen::picture(gen::menu(), 1, 8, false),
                     ],
                 )
